@@ -44,20 +44,42 @@ meta["confirmed"] = ok
 print(sid, "confirmed" if ok else "NOT CONFIRMED", meta["ran"]["tests_with_change"], "demo with/without:", d1.returncode, d0.returncode, flush=True)
 # 2. run the checks against it
 results = {}
-if ok:
+prev = os.path.join(ROOT, "seeded", sid, "meta.json")
+if os.path.exists(prev):
+    results = json.load(open(prev)).get("checks", {})
+if ok and "--skip-target" not in sys.argv:
+    # 2a. the target property's check against /repo itself with the change applied, undone at once
     assert sh("git -C /repo status --short").stdout.strip() == "", "/repo not clean"
     sh(f"git -C /repo apply {patch}")
     try:
-        props = [target] + ([p for p in ALL if p != target] if "--all" in sys.argv else [])
-        for p in props:
-            t0 = time.time()
-            c = sh(f"cd {ROOT} && ./check {p} --seconds {budget if p != target else max(int(budget), 30)} --no-evidence")
-            lines = [l for l in c.stdout.splitlines() if l.startswith(("violation kind", "VIOLATION", "repaired defect"))]
-            results[p] = {"exit": c.returncode, "first": [l[:300] for l in lines[:3]], "wall_s": round(time.time() - t0, 1)}
-            print("  ", p, "exit", c.returncode, (lines[0][:160] if lines else ""), flush=True)
+        t0 = time.time()
+        c = sh(f"cd {ROOT} && ./check {target} --seconds {max(int(budget), 30)} --no-evidence")
+        lines = [l for l in c.stdout.splitlines() if l.startswith(("violation kind", "VIOLATION", "repaired defect"))]
+        results[target] = {"exit": c.returncode, "first": [l[:300] for l in lines[:3]], "wall_s": round(time.time() - t0, 1),
+                           "how": "git -C /repo apply; ./check; git -C /repo checkout -- ."}
+        print("  ", target, "exit", c.returncode, (lines[0][:160] if lines else ""), flush=True)
     finally:
         sh("git -C /repo checkout -- .")
     assert sh("git -C /repo status --short").stdout.strip() == ""
+if ok:
+    # 2b. the other checks against a scratch worktree with the change (shadowing the installed
+    # package through PYTHONPATH), so that /repo stays untouched meanwhile
+    if "--all" in sys.argv:
+        ew = f"/tmp/eval-{sid}"
+        sh(f"git -C /repo worktree remove --force {ew}")
+        assert sh(f"git -C /repo worktree add -q {ew} HEAD").returncode == 0
+        try:
+            assert sh(f"git -C {ew} apply {patch}").returncode == 0
+            env2 = dict(os.environ, PYTHONPATH=ew, VERIF_JOBS=os.environ.get("EVAL_JOBS", "8"))
+            for p in [x for x in ALL if x != target]:
+                t0 = time.time()
+                c = sh(f"cd {ROOT} && ./check {p} --seconds {budget} --no-evidence", env=env2)
+                lines = [l for l in c.stdout.splitlines() if l.startswith(("violation kind", "VIOLATION", "repaired defect"))]
+                results[p] = {"exit": c.returncode, "first": [l[:300] for l in lines[:3]], "wall_s": round(time.time() - t0, 1),
+                              "how": "scratch worktree with the change on PYTHONPATH, 8 workers"}
+                print("  ", p, "exit", c.returncode, (lines[0][:160] if lines else ""), flush=True)
+        finally:
+            sh(f"git -C /repo worktree remove --force {ew}")
 meta["checks"] = results
 meta["caught_by"] = sorted(p for p, v in results.items() if v["exit"] == 1)
 meta["caught_by_target_check"] = results.get(target, {}).get("exit") == 1
